@@ -28,7 +28,8 @@ type subm struct {
 	startStep uint64
 }
 
-type window struct{ from, to uint64 } // Start returned .. Shutdown invoked (0 = open)
+// window: Start returned .. Shutdown invoked (0 = open); startInv: when that Start call was invoked
+type window struct{ from, to, startInv uint64 }
 
 type callIv struct{ inv, ret uint64 } // one Shutdown() call
 
@@ -43,6 +44,8 @@ type world struct {
 	windows  []*window
 	shuts    []*callIv
 	panicOpt bool
+	// Start calls invoked so far / invoked and not yet returned
+	startSeq, startsInFlight int
 	// ghost of the number of pending tasks, a lower bound at every instant: +1 when an accepted Submit call has
 	// returned (the real increase happened inside the call), -1 when a task function has finished (the real decrease
 	// follows), and for a task that is cancelled by a shutdown -1 at the step that shutdown was invoked (the earliest
@@ -77,6 +80,13 @@ type waitRec struct {
 
 // check: a wait on a group may only return if, at some instant of the call, nothing was pending below the group.
 func (r *waitRec) check(s *simrt.Sim) {
+	atInv := 0
+	for _, w := range r.worlds {
+		atInv += w.pendingAt(r.inv)
+	}
+	if atInv > 0 {
+		s.Probe("group-wait-invoked-while-tasks-pending")
+	}
 	pts := []uint64{r.inv, r.ret}
 	for _, w := range r.worlds {
 		for _, e := range w.gevents {
@@ -121,6 +131,7 @@ func (w *world) watch(p *workerpool.WorkerPool) {
 				w.justFinished[cur] = false // accounted for when the function finished
 			} else {
 				// the task was cancelled (shutdown of a pool that cancels pending tasks)
+				w.s.Probe("task-cancelled-on-shutdown")
 				at := w.shutdownInv
 				if at == 0 {
 					at = w.s.Tick()
@@ -205,6 +216,18 @@ func (w *world) finalChecks(p *workerpool.WorkerPool, cancelOK bool) {
 		if sb.ret == 0 {
 			continue // Submit never returned: reported as stuck
 		}
+		if w.overlapsShutdown(sb) {
+			s.Probe("submit-overlaps-shutdown")
+			if sb.accepted {
+				s.Probe("submit-overlapping-shutdown-accepted")
+			}
+		}
+		if !sb.accepted {
+			s.Probe("submit-rejected")
+		}
+		if sb.accepted && sb.starts == 0 {
+			s.Probe("accepted-task-cancelled-by-shutdown")
+		}
 		if sb.accepted && sb.starts == 0 {
 			if w.overlapsShutdown(sb) {
 				unstartedOverlap++
@@ -225,7 +248,16 @@ func (w *world) finalChecks(p *workerpool.WorkerPool, cancelOK bool) {
 		}
 		if !sb.accepted {
 			for _, win := range w.windows {
-				if sb.inv > win.from && (win.to == 0 || sb.ret < win.to) {
+				// (with two lifecycle tasks the pool only certainly runs if no Shutdown call of anybody overlaps the time
+				// from the Start's invocation - the Start may have taken effect at any moment of the call - to the
+				// Submit's return)
+				foreign := false
+				for _, sh := range w.shuts {
+					if sh.inv < sb.ret && (sh.ret == 0 || sh.ret > win.startInv) {
+						foreign = true
+					}
+				}
+				if sb.inv > win.from && (win.to == 0 || sb.ret < win.to) && !foreign {
 					s.Fail("conservation", "dropped-in-running-window", "Submit of %s lay entirely inside a running window [%d,%d] but the task was not accepted", sb.id, win.from, win.to)
 				}
 			}
@@ -290,37 +322,59 @@ func pool(s *simrt.Sim, restart bool) {
 		cycles = 2 + s.Choose(2)
 	}
 	nowait := simrt.ConfigHas("nowait")
-	s.Go("shutdowner", func() {
-		for c := 0; c < cycles; c++ {
-			for i := 0; i < delay; i++ {
-				simrt.Yield()
-			}
-			if c > 0 {
-				s.Logf("Start")
-				w.down = false
-				p.Start()
-				nw := &window{from: s.Tick()}
-				w.windows = append(w.windows, nw)
-				win = nw
-				if s.Choose(2) == 1 {
-					w.submit(p, fmt.Sprintf("r%d", c), s.Choose(2), 0)
+	// lifecycle: cycles of [Start,] Shutdown, ShutdownComplete.Wait; the first cycle of the primary task uses the Start
+	// made above. In the restart harness a second lifecycle task may run its own cycles at the same time (concurrent
+	// Start and Shutdown callers).
+	lifecycle := func(name string, cycles, delay int, primary bool) {
+		s.Go(name, func() {
+			mine := win
+			for c := 0; c < cycles; c++ {
+				for i := 0; i < delay; i++ {
+					simrt.Yield()
 				}
+				if c > 0 || !primary {
+					s.Probe("pool-restarted")
+					if nowait {
+						s.Probe("pool-restarted-without-waiting-for-shutdown")
+					}
+					s.Logf("%s: Start", name)
+					w.down = false
+					w.startSeq++
+					w.startsInFlight++
+					startInv := s.Tick()
+					p.Start()
+					w.startsInFlight--
+					mine = &window{from: s.Tick(), startInv: startInv}
+					w.windows = append(w.windows, mine)
+					if s.Choose(2) == 1 {
+						w.submit(p, fmt.Sprintf("%s.r%d", name, c), s.Choose(2), 0)
+					}
+				}
+				mine.to = s.Tick()
+				s.Logf("%s: Shutdown", name)
+				sh := &callIv{inv: mine.to}
+				w.shuts = append(w.shuts, sh)
+				seq := w.startSeq
+				p.Shutdown()
+				sh.ret = s.Tick()
+				if nowait && c < cycles-1 {
+					// restart right away, without waiting for the previous shutdown to complete
+					continue
+				}
+				p.ShutdownComplete.Wait()
+				// completely shut down - unless somebody has invoked Start since this Shutdown was invoked, or is inside Start
+				if w.startSeq == seq && w.startsInFlight == 0 {
+					w.down = true
+				}
+				s.Logf("%s: ShutdownComplete", name)
 			}
-			win.to = s.Tick()
-			s.Logf("Shutdown")
-			sh := &callIv{inv: win.to}
-			w.shuts = append(w.shuts, sh)
-			p.Shutdown()
-			sh.ret = s.Tick()
-			if nowait && c < cycles-1 {
-				// restart right away, without waiting for the previous shutdown to complete
-				continue
-			}
-			p.ShutdownComplete.Wait()
-			w.down = true
-			s.Logf("ShutdownComplete")
-		}
-	})
+		})
+	}
+	lifecycle("shutdowner", cycles, delay, true)
+	if restart && s.Choose(2) == 1 {
+		s.Probe("two-lifecycle-tasks")
+		lifecycle("restarter", 1+s.Choose(2), s.Choose(5), false)
+	}
 	left := s.Quiesce()
 	// conservation first: a task that was counted but never dispatched also keeps the dispatcher (and with it the
 	// shutdown) waiting, and is reported as what it is
@@ -461,6 +515,7 @@ func groupTree(s *simrt.Sim) {
 		cur = sub
 	}
 	s.Logf("tree depth=%d pools=%d", depth, len(pools))
+	s.Probe(fmt.Sprintf("tree-depth-%d", depth))
 	var waits []*waitRec
 	below := func(n *gnode) (l []*world) {
 		for _, pi := range n.pools {
@@ -501,6 +556,9 @@ func groupTree(s *simrt.Sim) {
 			}
 			ret := s.Tick()
 			s.Logf("wait on %s (parents=%v) returned", n.name, parents)
+			if parents {
+				s.Probe("waitparents-returned")
+			}
 			waits = append(waits, &waitRec{worlds: below(target), name: ":" + target.name, inv: inv, ret: ret})
 		})
 	}
@@ -517,6 +575,7 @@ func groupTree(s *simrt.Sim) {
 				worlds[pi].windows[0].to = t
 				worlds[pi].shutdownInv = t
 			}
+			s.Probe("subgroup-shutdown-while-working:" + n.name)
 			s.Logf("Shutdown of group %s", n.name)
 			n.g.Shutdown()
 			s.Logf("Shutdown of group %s returned", n.name)
